@@ -6,7 +6,9 @@
 //   - configuration/template: Sequence.Execute -> VarStack.consolidated -> Fields.Execute on
 //     the field "{{ key }}" at each of the stages                                           (stage)
 //   - core/workflow: a workflow document is unmarshalled and ProcessTemplates runs on it
-//     (hook VerifC14LoadYAML = Load minus repository manager), under a ParentAdapter holding
+//     (hook VerifC14LoadYAMLInc = Load minus repository manager; include roles find their
+//     sub-workflow documents by name in a table, and the include role's own maps are read at the
+//     moment it asks for its sub-workflow), under a ParentAdapter holding
 //     the environment-wide maps (optionally read through apricot's file backend with
 //     GetDefaults/GetVars as newEnvironment does); SetRuntimeVar/DeleteRuntimeVar at inner
 //     roles; then ConsolidatedVarStack / ConsolidatedVarMaps / own maps at every role        (tree)
@@ -77,6 +79,17 @@ type roleIn struct {
 	IterVar  string        `json:"iter_var,omitempty"`
 	IterVals []string      `json:"iter_vals,omitempty"`
 	Tpl      *roleIn       `json:"tpl,omitempty"`
+	// include role: Defaults/Vars/NameRef are its own, Sub is the root of the sub-workflow it names
+	// (Defaults, Vars, Children; the root's name is the name of the generated document)
+	Sub *roleIn `json:"sub,omitempty"`
+}
+
+// kids: the children a role has in the loaded tree (an include role has its sub-workflow root's)
+func (r *roleIn) kids() []*roleIn {
+	if r.Sub != nil {
+		return r.Sub.Children
+	}
+	return r.Children
 }
 
 type lvl struct {
@@ -177,9 +190,13 @@ func roleTerm(r *roleIn) string {
 	if r.NameRef != "" {
 		nm = gen.Some(gen.Str(r.NameRef))
 	}
-	ch := make([]string, len(r.Children))
-	for i, c := range r.Children {
+	ch := make([]string, len(r.kids()))
+	for i, c := range r.kids() {
 		ch[i] = roleTerm(c)
+	}
+	if r.Sub != nil {
+		return fmt.Sprintf("(RIncl %s %s %s %s %s %s)", nm, rmapTerm(r.Defaults), rmapTerm(r.Vars),
+			rmapTerm(r.Sub.Defaults), rmapTerm(r.Sub.Vars), gen.List(ch))
 	}
 	return fmt.Sprintf("(RRole %s %s %s %s)", nm, rmapTerm(r.Defaults), rmapTerm(r.Vars), gen.List(ch))
 }
@@ -415,6 +432,18 @@ func roleDoc(r *roleIn) map[string]any {
 		d["vars"] = m
 	}
 	switch {
+	case r.Sub != nil:
+		// the sub-workflow goes into a document of its own, found by the loader hook under its name
+		name := "sub" + strconv.Itoa(len(subDocs))
+		subDocs[name] = nil // reserve the name before the children are written
+		sd := roleDoc(&roleIn{Defaults: r.Sub.Defaults, Vars: r.Sub.Vars, Children: r.Sub.Children})
+		sd["name"] = name
+		doc, err := json.Marshal(sd)
+		if err != nil {
+			panic(err)
+		}
+		subDocs[name] = doc
+		d["include"] = name
 	case len(r.Children) > 0:
 		var ch []any
 		for _, c := range r.Children {
@@ -484,10 +513,19 @@ func copyMap(m smap) smap {
 
 var dummyRepo repos.Repo
 
+// sub-workflow documents of the workflow document being written, by include name
+var subDocs = map[string][]byte{}
+
+// own maps of the include roles of the tree loaded last, as they were when the include role asked
+// for its sub-workflow (after its own templates were processed, before the loaded root took its
+// place), by role
+var hidOf = map[workflow.Role]lvl{}
+
 type viewObs struct {
 	Addr  []int  `json:"addr"`
 	Name  string `json:"name"`
 	Own   lvl    `json:"own"`
+	Hid   []lvl  `json:"hid,omitempty"`
 	Stack smap   `json:"stack"`
 	Maps  lvl    `json:"maps"`
 }
@@ -514,7 +552,11 @@ func walk(r workflow.Role, addr []int, out *[]viewObs) {
 		panic(err)
 	}
 	a := append([]int{}, addr...)
-	*out = append(*out, viewObs{Addr: a, Name: r.GetName(),
+	var hid []lvl
+	if h, ok := hidOf[r]; ok {
+		hid = []lvl{h}
+	}
+	*out = append(*out, viewObs{Addr: a, Name: r.GetName(), Hid: hid,
 		Own:   lvl{copyMap(r.GetDefaults().Raw()), copyMap(r.GetVars().Raw()), copyMap(r.GetUserVars().Raw())},
 		Stack: st, Maps: lvl{must(d, nil), must(v, nil), must(u, nil)}})
 	for i, c := range r.GetRoles() {
@@ -530,11 +572,15 @@ func loadTree(tmp string, in input) (workflow.Role, lvl, error) {
 		env.D, env.V = throughBackend(tmp, in.Env.D, in.Env.V)
 	}
 	pa := parentAdapter(copyMap(env.D), copyMap(env.V), copyMap(env.U))
+	subDocs = map[string][]byte{}
 	doc, err := json.Marshal(roleDoc(in.Tree)) // JSON is YAML
 	if err != nil {
 		panic(err)
 	}
-	root, err := workflow.VerifC14LoadYAML(doc, pa, &dummyRepo, smap{})
+	hidOf = map[workflow.Role]lvl{}
+	root, err := workflow.VerifC14LoadYAMLInc(doc, subDocs, pa, &dummyRepo, smap{}, func(inc workflow.Role) {
+		hidOf[inc] = lvl{copyMap(inc.GetDefaults().Raw()), copyMap(inc.GetVars().Raw()), copyMap(inc.GetUserVars().Raw())}
+	})
 	return root, env, err
 }
 
@@ -545,7 +591,7 @@ func iterLocals(t *roleIn) []string {
 	var role func(r *roleIn, addr []int)
 	role = func(r *roleIn, addr []int) {
 		idx := 0
-		for _, c := range r.Children {
+		for _, c := range r.kids() {
 			if c.Tpl != nil {
 				for _, v := range c.IterVals {
 					a := append(append([]int{}, addr...), idx)
@@ -584,7 +630,11 @@ func caseTree(tmp string, in input) gen.Case {
 		walk(root, []int{0}, &views)
 		it := make([]string, len(views))
 		for i, w := range views {
-			it[i] = fmt.Sprintf("mkView %s %s %s %s %s", nlist(w.Addr), gen.Str(w.Name), lvlTerm(w.Own), gen.KVs(w.Stack), lvlTerm(w.Maps))
+			hid := make([]string, len(w.Hid))
+			for j, h := range w.Hid {
+				hid[j] = lvlTerm(h)
+			}
+			it[i] = fmt.Sprintf("mkView %s %s %s %s %s %s", nlist(w.Addr), gen.Str(w.Name), lvlTerm(w.Own), gen.List(hid), gen.KVs(w.Stack), lvlTerm(w.Maps))
 		}
 		obsTerm = gen.Some(gen.List(it))
 	}
@@ -847,7 +897,15 @@ func genRole(r *gen.Rand, depth, maxDepth int, budget *int) *roleIn {
 		}
 		for i := 0; i < n && *budget > 0; i++ {
 			c := genRole(r, depth+1, maxDepth, budget)
-			if r.Chance(1, 5) {
+			isInc := false
+			if len(c.Children) > 0 && r.Chance(3, 10) {
+				// include role: c becomes the root of a sub-workflow, the include role gets maps of
+				// its own (dense: they are what the included subtree must see as the nearest ancestor's)
+				c = &roleIn{NameRef: c.NameRef, Defaults: genRmap(r, 1, 2, 2), Vars: genRmap(r, 1, 2, 2),
+					Sub: &roleIn{Defaults: c.Defaults, Vars: c.Vars, Children: c.Children}}
+				isInc = true
+			}
+			if r.Chance(1, 5) || (isInc && r.Chance(1, 3)) {
 				it := &roleIn{Tpl: c, IterVar: "i"}
 				if r.Chance(1, 2) {
 					it.IterVar = r.Pick(alphabet) // the iterator variable collides with a key
@@ -954,6 +1012,24 @@ func corpus() []struct {
 				Children: []*roleIn{{Tpl: &roleIn{NameRef: "i", Vars: map[string]tv{"c": {Ref: "i"}}, Leaf: "task"}, IterVar: "i", IterVals: []string{"0", "1"}},
 					{Leaf: "call", Defaults: map[string]tv{"c": {Lit: "z"}}}}},
 			Ops: []hop{{Addr: []int{0, 0}, Key: "c", Val: sp("")}, {Addr: []int{0}, Key: "b", Val: sp("1")}}}},
+		// include role with defaults and vars of its own, under a root and an environment that define
+		// the same keys: the included subtree sees the include role's as the nearest ancestor's
+		{"tree", input{Env: &lvl{D: smap{"a": "z", "b": "z", "c": "z", "d": "z"}, V: smap{"b": "1"}, U: e},
+			Tree: &roleIn{Defaults: map[string]tv{"a": {Lit: "y"}, "c": {Lit: "y"}}, Vars: map[string]tv{"b": {Lit: "y"}},
+				Children: []*roleIn{{Defaults: map[string]tv{"a": {Lit: "x"}}, Vars: map[string]tv{"b": {Lit: "x"}, "d": {Lit: ""}},
+					Sub: &roleIn{Defaults: map[string]tv{"c": {Lit: "x"}},
+						Children: []*roleIn{{Leaf: "task", Vars: map[string]tv{"c": {Ref: "a"}}},
+							{Children: []*roleIn{{Leaf: "call", Defaults: map[string]tv{"a": {Ref: "b"}}}}}}}}}}}},
+		// iterated include role: the iterator variable collides with a key of the root and of the
+		// environment; the local and the per-value var must be what each included subtree sees;
+		// a runtime variable set on a generated include role lands on the level it shows as its own
+		{"tree", input{Env: &lvl{D: smap{"a": "z", "b": "z"}, V: smap{"a": "z"}, U: e},
+			Tree: &roleIn{Defaults: map[string]tv{"b": {Lit: "y"}}, Vars: map[string]tv{"a": {Lit: "y"}},
+				Children: []*roleIn{{IterVar: "a", IterVals: []string{"0", "1"},
+					Tpl: &roleIn{NameRef: "a", Vars: map[string]tv{"b": {Ref: "a"}},
+						Sub: &roleIn{Vars: map[string]tv{"c": {Ref: "b"}},
+							Children: []*roleIn{{Leaf: "task", Defaults: map[string]tv{"d": {Ref: "a"}}}}}}}}},
+			Ops: []hop{{Addr: []int{0, 1}, Key: "d", Val: sp("1")}}}},
 	}
 }
 
